@@ -179,6 +179,31 @@ Theorem C04_source_default_zip : forall f g pan a b so nd, length a = length b -
          (zip_ true so f pan a b).
 Proof. exact tie_default_zip. Qed.
 
+(* the other trait defaults as regenerated (src/functional.rs map / fold, src/sequence.rs inverted_zip2): what
+   (&a).map(f), (&a).zip(&b, f), (&a).fold(init, f) and the same over &mut run.  `so` says whether the
+   sequence iterated by value owns its items; whatever call panics, exactly the owned items are moved or
+   released (Functional.map_ / zip_ / fold_ with that ownership) *)
+Theorem C04_source_default_map : forall f g pan a so nd,
+  flat5 (run_from_iter [a] so f g pan (pipe_of gen_default_map nd) (length a)) = map_ so f pan a.
+Proof. exact tie_default_map. Qed.
+
+Theorem C04_source_default_zip2 : forall f g pan a b so nd, length a = length b ->
+  agrees (run_from_iter [b; a] so f g pan (pipe_of gen_default_inverted_zip2 nd) (length a))
+         (zip_ so so f pan a b).
+Proof. exact tie_default_zip2. Qed.
+
+Theorem C04_source_default_fold : forall f g pan a so nd init,
+  let '(o, m, t, c) := run_fold [a] so f g pan (pipe_of gen_default_fold nd) (length a) init in
+  (o, (m ++ t)%list, List.concat c) = fold_ so g pan init a.
+Proof. exact tie_default_fold. Qed.
+
+(* zip(self, rhs, f) is rhs.inverted_zip(self, f) in GenericArray's impl and rhs.inverted_zip2(self, f) in the
+   trait default: `self` becomes the left operand, f is handed over unchanged *)
+Theorem C04_source_zip_delegations :
+  gen_zip_delegations =
+  [("lib.rs", "rhs", "inverted_zip", ["self"; "f"]); ("functional.rs", "rhs", "inverted_zip2", ["self"; "f"])]%string.
+Proof. exact tie_zip_delegations. Qed.
+
 (* which methods the impls that run caller code define themselves (regenerated, coq/gen/GenSigs.v):
    Clone defines clone only (clone_from is the standard default `*self = source.clone()`), Default
    default, FromIterator from_iter; the panic-safety theorems above cover exactly these bodies *)
